@@ -3,8 +3,10 @@ from symx.runner import Ob
 
 ID = "C25"
 LG = "breezy.log"
-FUNCTIONS = [LG + ":reverse_by_depth", LG + ":_rebase_merge_depth"]
-STUBS = []
+FUNCTIONS = [LG + ":reverse_by_depth", LG + ":_rebase_merge_depth", LG + ":_DefaultLogGenerator.iter_log_revisions",
+             LG + ":LogRevision.__init__"]
+STUBS = ["log_generator obligation: _DefaultLogGenerator built with object.__new__; its revision iterator is replaced by a "
+         "stub that yields the (symbolic-depth) view in batches"]
 ASSUMPTIONS = ["input is a merge-sorted view: depths >= 0 and a depth never exceeds its predecessor's by more than one "
                "(what merge_sort produces); for the involution law the first revision has depth 0 (a tip)",
                "revision ids and revnos are opaque (unbounded integers / tuples), only depths drive the code"]
@@ -90,6 +92,62 @@ def ob_rebase(cx):
     cx.observe("depths", [a[2] for a in out])
 
 
+class _Rev:
+    def __init__(self, nparents):
+        self.parent_ids = [b"p"] * nparents
+
+
+def ob_generator(cx):
+    """_DefaultLogGenerator.iter_log_revisions over a stub revision iterator: level restriction, omit_merges and limit."""
+    L = cx.mod(LG)
+    view = _view(cx, True)
+    n = len(view)
+    revs = [_Rev(cx.choose("nparents%d" % i, 1, 2)) for i in range(n)]
+    levels = cx.int("levels", 0, 3)
+    limit = cx.pick("limit_kind", [None, "int"]) and cx.int("limit", 0, n + 1)
+    omit_merges = bool(cx.choose("omit_merges", 0, 1))
+    batch = cx.choose("batch", 1, 3)
+    gen = object.__new__(L._DefaultLogGenerator)
+    gen.branch = None
+    gen.levels, gen.limit, gen.omit_merges = levels, limit, omit_merges
+    gen.diff_type = None
+    gen.show_signature = False
+    gen.rev_tag_dict = {}
+    gen.specific_files = None
+    items = [((b"rev%d" % i, view[i][1], view[i][2]), revs[i], None) for i in range(n)]
+    gen._create_log_revision_iterator = lambda: iter([items[k:k + batch] for k in range(0, n, batch)])
+    got = list(gen.iter_log_revisions())
+    # reference: what the unlimited listing shows, then its first `limit` entries
+    shown = []
+    for i in range(n):
+        hidden = cx.truth(levels != 0) and cx.truth(view[i][2] >= levels)
+        if hidden or (omit_merges and len(revs[i].parent_ids) > 1):
+            continue
+        shown.append(i)
+    if limit is not None and cx.truth(limit > 0):
+        k = 0
+        while k < len(shown) and cx.truth(k < limit):
+            k += 1
+        want = shown[:k]
+    else:
+        want = shown
+    cx.require(len(got) == len(want), "log lists %d revisions, expected %d (the first `limit` of the unlimited listing)" %
+               (len(got), len(want)))
+    for lr, i in zip(got, want):
+        cx.require(lr.rev is revs[i], "log lists a different revision than the unlimited listing at that position")
+        cx.require(lr.revno == str(view[i][1]) and cx.truth(lr.merge_depth == view[i][2]), "revno / merge depth of a listed revision changed")
+    if cx.truth(levels == 1) and not omit_merges and limit is None:
+        mainline = [i for i in range(n) if cx.truth(view[i][2] == 0)]
+        cx.require([id(lr.rev) for lr in got] == [id(revs[i]) for i in mainline],
+                   "one-level log does not list exactly the left-hand history")
+        cx.cover("one_level")
+    if limit is not None and len(want) < len(shown):
+        cx.cover("limited")
+    if len(shown) < n:
+        cx.cover("hidden")
+    cx.observe("shown", [lr.revno for lr in got])
+
+
 def obligations(tier):
     q = tier == "quick"
     p = dict(n=6 if q else 8)
@@ -99,4 +157,7 @@ def obligations(tier):
            bounds="views of <= %(n)d revisions, symbolic depths constrained to merge-sorted profiles" % p),
         Ob("rebase_merge_depth", ob_rebase, [LG], dict(n=4 if q else 5), to, 1, ["rebased", "unchanged"],
            bounds="views of <= %d revisions with unbounded non-negative symbolic depths" % (4 if q else 5)),
+        Ob("log_generator", ob_generator, [LG], dict(n=4 if q else 5), to, 3 if q else 1, ["one_level", "limited", "hidden"],
+           bounds="iter_log_revisions over a stub revision iterator: views of <= %d revisions with symbolic merge depths, "
+                  "symbolic levels 0..3, symbolic limit (or none), omit_merges on/off, batch sizes 1..3" % (4 if q else 5)),
     ]
